@@ -99,10 +99,14 @@ const (
 )
 
 type PoolPolicy struct {
-	Mode    int `json:"mode"`
-	MissPM  int `json:"miss_pm"`  // per-mille of Gets answered by New() although a free object exists
-	DropPM  int `json:"drop_pm"`  // per-mille of Puts that drop the object
-	ClearPM int `json:"clear_pm"` // per-mille of operation boundaries at which all pools are emptied
+	// Affinity: a Get only takes objects that the asking task itself put back (otherwise New()), as the per-P caches of
+	// a real sync.Pool mostly do. Without hand-overs between tasks the pool adds no happens-before edges between them,
+	// so that races on OTHER shared state are not ordered away by an unrelated Put->Get pair.
+	Affinity bool `json:"affinity,omitempty"`
+	Mode     int  `json:"mode"`
+	MissPM   int  `json:"miss_pm"`  // per-mille of Gets answered by New() although a free object exists
+	DropPM   int  `json:"drop_pm"`  // per-mille of Puts that drop the object
+	ClearPM  int  `json:"clear_pm"` // per-mille of operation boundaries at which all pools are emptied
 }
 
 type objMeta struct {
@@ -284,6 +288,28 @@ func (s *Sim) get(task int32, uid uint32, kind uint16, counter uint32, p *sync.P
 		return nil
 	}
 	idx := n - 1
+	if s.Pol.Affinity {
+		idx = -1
+		for i := n - 1; i >= 0; i-- {
+			if m := s.objs[ptrOf(sp.free[i])]; m != nil && m.lastTask == task {
+				idx = i
+				break
+			}
+		}
+		if idx < 0 {
+			s.Stats.ForcedMiss++
+			s.Event(Event{Kind: EvGetMiss, Task: task, Op: uid, Pool: sp.idx})
+			return nil
+		}
+	} else {
+		idx = s.pickFree(sp, uid, counter, n)
+	}
+	return s.take(sp, idx, n, task, uid, kind)
+}
+
+// pickFree chooses a free object according to the pool mode.
+func (s *Sim) pickFree(sp *simPool, uid, counter uint32, n int) int {
+	idx := n - 1
 	switch s.Pol.Mode {
 	case PoolLIFO:
 		if s.choose(uid, counter, 2, 10) == 0 {
@@ -308,6 +334,10 @@ func (s *Sim) get(task int32, uid uint32, kind uint16, counter uint32, p *sync.P
 			idx = s.choose(uid, counter, 3, n)
 		}
 	}
+	return idx
+}
+
+func (s *Sim) take(sp *simPool, idx, n int, task int32, uid uint32, kind uint16) any {
 	x := sp.free[idx]
 	copy(sp.free[idx:], sp.free[idx+1:])
 	sp.free[n-1] = nil
